@@ -120,8 +120,8 @@ func scenarios(r *hxlib.Run) []scn {
 	add(scn{Writer: "fetch", Old: "absent", NewLen: dlSize(), Srv: "close-cut@half+ok", Var: "getfile"})
 	add(scn{Writer: "fetch", Old: "file", OldLen: small(), NewLen: dlSize(), Srv: []string{"len-rst@half+ok", "st503+ok", "chunked-cut@half+ok", "len-long+ok"}[r.Rng.Intn(4)], Var: "getfile"})
 	add(scn{Writer: "fetch", Old: "file", OldLen: small(), NewLen: dlSize(), Srv: "ok", Var: "getfile"})
-	add(scn{Writer: "fetch", Old: "file", OldLen: small(), NewLen: dlSize(), Srv: "http10-cut@half+close-cut@1"})
 	if r.Thorough {
+		add(scn{Writer: "fetch", Old: "file", OldLen: small(), NewLen: dlSize(), Srv: "http10-cut@half+close-cut@1"})
 		for _, plan := range single {
 			add(scn{Writer: "fetch", Old: "file", OldLen: small(), NewLen: dlSize(), Srv: plan})
 			add(scn{Writer: "fetch", Old: "absent", NewLen: dlSize(), Srv: plan})
@@ -156,6 +156,12 @@ func scenarios(r *hxlib.Run) []scn {
 	add(scn{Writer: "unpack-zip", Old: "absent", NewLen: multi()})
 	add(scn{Writer: "unpack-zip", Old: "dir", NewLen: small()})
 	add(scn{Writer: "unpack-zip", Old: "file", NewLen: small(), Fail: "blocked"})
+	// the size limit of copyFromZipArchive: a member just above MaxUnpackSize and one exactly at it (untraced runs)
+	add(scn{Writer: "unpack-zip-big", Old: "absent", Var: "above-limit"})
+	add(scn{Writer: "unpack-zip-big", Old: "absent", Var: "at-limit"})
+	if r.Thorough {
+		add(scn{Writer: "unpack-zip-big", Old: "absent", Var: "below-limit"})
+	}
 	// File.Unpack (gzip)
 	for _, old := range []string{"absent", "file"} {
 		for _, n := range sizes() {
